@@ -139,15 +139,16 @@ func itoa(i int) string {
 
 // wgen is the state of one run of the hand-written generator.
 type wgen struct {
-	r        *run.Rand
-	fam      map[string]int
-	out      []string
-	seq      int
-	budget   int // statements + members still allowed
-	labels   []string
-	spring   bool
-	declared []string // type names declared so far (referenced by later code)
-	curType  string   // name of the innermost named type being generated (for constructors)
+	r         *run.Rand
+	fam       map[string]int
+	out       []string
+	seq       int
+	budget    int // statements + members still allowed
+	labels    []string
+	spring    bool
+	slashBase bool     // the controller being generated has a base path ending with '/': handlers also get empty paths
+	declared  []string // type names declared so far (referenced by later code)
+	curType   string   // name of the innermost named type being generated (for constructors)
 }
 
 func (g *wgen) use(f string) { g.fam[f]++ }
